@@ -295,7 +295,7 @@ fn marker_of(m: &[u8]) -> Option<u32> {
     None
 }
 
-fn one_case(c: &mut Ctx, fam: &str, idx: u64) {
+fn one_case(c: &mut Ctx, fam: &str, idx: u64, threads: bool) {
     let mut rng = c.case_rng(fam, idx);
     let kinds: [&'static str; 12] = ["positive", "positive", "nodata", "nxdomain", "delegation", "servfail", "truncated", "transport-failure", "weird", "cname-nodata", "cname-nxdomain", "cname-positive"];
     let nnames = 4;
@@ -328,14 +328,21 @@ fn one_case(c: &mut Ctx, fam: &str, idx: u64) {
     let max_entries = *rng.pick(&[1u64, 2, 5, 1000]);
     let nq = rng.range(8, 60);
     let ex = json!({"plan": plan.iter().map(|p| format!("{} ttl {} / {}", p.0, p.1, p.2)).collect::<Vec<_>>(), "max_validity": max_validity, "max_nxdomain": nx, "max_nodata": nd, "misc_error": misc, "transport_failure": tf, "max_delegation": deleg, "cache_truncated": cache_trunc, "max_entries": max_entries});
-    let rt = tokio::runtime::Builder::new_current_thread().enable_all().start_paused(true).build().unwrap();
+    // on real threads: a multi-thread runtime, the real clock (no time passes between queries but what they take), six
+    // tasks querying at once; the oracle then goes by the markers alone
+    let rt = if threads {
+        tokio::runtime::Builder::new_multi_thread().worker_threads(4).enable_all().build().unwrap()
+    } else {
+        tokio::runtime::Builder::new_current_thread().enable_all().start_paused(true).build().unwrap()
+    };
     let log: Arc<Mutex<Vec<Seen>>> = Arc::new(Mutex::new(vec![]));
     let log2 = log.clone();
     let names2 = Arc::new(names.clone());
     let plan2 = Arc::new(plan.clone());
     let mut rng2 = rng.fork();
     // (query, time asked in ms, upstream log length before and after, result)
-    type Row = (Query, u64, usize, usize, Result<Vec<u8>, String>);
+    // (query, time asked, upstream log length before and after, result, time answered)
+    type Row = (Query, u64, usize, usize, Result<Vec<u8>, String>, u64);
     let res = ctx::catch(|| {
         rt.block_on(async move {
             let start = tokio::time::Instant::now();
@@ -351,6 +358,36 @@ fn one_case(c: &mut Ctx, fam: &str, idx: u64) {
             cfg.set_max_cache_entries(max_entries);
             let conn = cache::Connection::with_config(up, cfg);
             let mut rows: Vec<Row> = Vec::new();
+            if threads {
+                let conn = Arc::new(conn);
+                let mut hs = Vec::new();
+                for t in 0..6u64 {
+                    let conn = conn.clone();
+                    let names2 = names2.clone();
+                    let mut rng3 = Rng::new(&[rng2.u64(), t]);
+                    hs.push(tokio::spawn(async move {
+                        let mut mine: Vec<Row> = Vec::new();
+                        for _ in 0..nq.min(20) {
+                            if rng3.chance(1, 3) {
+                                tokio::task::yield_now().await;
+                            }
+                            let q = Query { name: rng3.below(nnames), qtype: *rng3.pick(&[T_A, T_A, T_TXT]), rd: rng3.bool(), cd: rng3.chance(1, 4), ad: rng3.chance(1, 3), dnssec_ok: rng3.chance(1, 3), case_flip: rng3.chance(1, 5) };
+                            let at = start.elapsed().as_millis() as u64;
+                            let mut gr = conn.send_request(mk_query(&q, &names2, rng3.u16()));
+                            let r = gr.get_response().await;
+                            let done = start.elapsed().as_millis() as u64;
+                            mine.push((q, at, 0, 0, r.map(|m| m.as_slice().to_vec()).map_err(|e| format!("{}", e)), done));
+                        }
+                        mine
+                    }));
+                }
+                for h in hs {
+                    if let Ok(v) = h.await {
+                        rows.extend(v);
+                    }
+                }
+                return rows;
+            }
             for _ in 0..nq {
                 // move the clock: often not at all, often around a TTL boundary
                 let adv_ms: u64 = match rng2.below(14) {
@@ -371,7 +408,7 @@ fn one_case(c: &mut Ctx, fam: &str, idx: u64) {
                 let mut gr = conn.send_request(mk_query(&q, &names2, rng2.u16()));
                 let r = gr.get_response().await;
                 let after = log2.lock().unwrap().len();
-                rows.push((q, at, before, after, r.map(|m| m.as_slice().to_vec()).map_err(|e| format!("{}", e))));
+                rows.push((q, at, before, after, r.map(|m| m.as_slice().to_vec()).map_err(|e| format!("{}", e)), at));
             }
             rows
         })
@@ -386,9 +423,14 @@ fn one_case(c: &mut Ctx, fam: &str, idx: u64) {
     };
     let log = log.lock().unwrap().clone();
     let mut last_failure: Vec<Option<u64>> = vec![None; nnames];
-    for (qi, (q, at, before, after, result)) in rows.iter().enumerate() {
+    for (qi, (q, at, before, after, result, done)) in rows.iter().enumerate() {
         let rp = |c: &Ctx, more: serde_json::Value| c.replay_of(fam, idx, json!({"ctx": ex, "query": qi, "more": more}));
-        let from_upstream = after > before;
+        let from_upstream = after > before && !threads;
+        if threads && result.is_err() {
+            // (which failure was passed on and which was remembered cannot be told apart without an order of events)
+            c.count("threads_failures", 1);
+            continue;
+        }
         let dflag = format!("{}{}{}{}", if q.rd { "R" } else { "r" }, if q.cd { "C" } else { "c" }, if q.ad { "A" } else { "a" }, if q.dnssec_ok { "D" } else { "d" });
         let kind = plan[q.name].0;
         match result {
@@ -448,7 +490,7 @@ fn one_case(c: &mut Ctx, fam: &str, idx: u64) {
                     return;
                 };
                 let um = u.response.as_ref().unwrap();
-                if u.at_ms > *at || w::lower(&u.qname) != w::lower(&names[q.name]) || u.qtype != q.qtype {
+                if (u.at_ms > *at && !threads) || u.at_ms > *done || w::lower(&u.qname) != w::lower(&names[q.name]) || u.qtype != q.qtype {
                     c.violation("cached-response-for-other-question", &format!("the cached response served for {} TYPE{} was upstream's answer to {} TYPE{}", w::name_text(&names[q.name]), q.qtype, w::name_text(&u.qname), u.qtype), rp(c, json!({})));
                     return;
                 }
@@ -462,7 +504,11 @@ fn one_case(c: &mut Ctx, fam: &str, idx: u64) {
                     return;
                 }
                 // age and freshness
-                let age_ms = at - u.at_ms;
+                // (on real threads the response was put together somewhere between asking and answering)
+                let age_ms = at.saturating_sub(u.at_ms);
+                let age_done_ms = done.saturating_sub(u.at_ms);
+                // on real threads: this may be the upstream's answer to this very query, passed on as it is
+                let maybe_fresh = threads && u.at_ms >= *at && u.at_ms <= *done && (u.rd, u.cd, u.ad, u.dnssec_ok) == (q.rd, q.cd, q.ad, q.dnssec_ok);
                 let urecs = records(um).unwrap_or_default();
                 let min_ttl = urecs.iter().map(|r| r.3).min().unwrap_or(0) as u64;
                 let upm = w::parse_message(um).unwrap();
@@ -489,7 +535,7 @@ fn one_case(c: &mut Ctx, fam: &str, idx: u64) {
                     bound = 0;
                     "weird"
                 };
-                if upm.flags & 0x0200 != 0 && !cache_trunc {
+                if upm.flags & 0x0200 != 0 && !cache_trunc && !maybe_fresh {
                     c.violation("truncated-response-cached", "a truncated response was served from the cache although cache_truncated is off", rp(c, json!({})));
                     return;
                 }
@@ -509,7 +555,7 @@ fn one_case(c: &mut Ctx, fam: &str, idx: u64) {
                     c.violation("ad-bit-exposed", "a query with neither AD nor DO got a response with the AD bit from the cache", rp(c, json!({"message": hex(m)})));
                     return;
                 }
-                if pm.flags & 0x0400 != 0 {
+                if pm.flags & 0x0400 != 0 && !maybe_fresh {
                     c.violation("aa-bit-from-cache", "a response from the cache has the AA bit", rp(c, json!({})));
                     return;
                 }
@@ -522,7 +568,7 @@ fn one_case(c: &mut Ctx, fam: &str, idx: u64) {
                     return;
                 }
                 let age_lo = (age_ms / 1000) as u32;
-                let age_hi = age_ms.div_ceil(1000) as u32;
+                let age_hi = age_done_ms.max(age_ms).div_ceil(1000) as u32;
                 for (a, b) in mrecs.iter().zip(&want) {
                     // rdata: names may have been re-compressed, compare what the reference parser sees
                     let lo = b.3.saturating_sub(age_hi);
@@ -554,6 +600,20 @@ fn one_case(c: &mut Ctx, fam: &str, idx: u64) {
 }
 
 pub fn run(c: &mut Ctx) {
+    // real threads: all there is to the ThreadSanitizer stage, a few cases elsewhere
+    let fam = "threads";
+    let total = if c.mode == "tsan" { c.total(64, 640) } else { c.total(160, 8_000) };
+    for idx in c.cases(fam, total) {
+        if c.out_of_time() {
+            break;
+        }
+        ctx::slot_write(idx, &format!("{}|case", fam), &[]);
+        one_case(c, fam, idx, true);
+        c.count("threads_cases", 1);
+    }
+    if c.mode == "tsan" {
+        return;
+    }
     let fam = "histories";
     let total = c.total(120_000, 4_000_000);
     for idx in c.cases(fam, total) {
@@ -561,10 +621,10 @@ pub fn run(c: &mut Ctx) {
             break;
         }
         ctx::slot_write(idx, &format!("{}|case", fam), &[]);
-        one_case(c, fam, idx);
+        one_case(c, fam, idx, false);
     }
     if !c.replaying() {
-        for k in ["answers_from_cache", "answers_from_upstream", "cached:answer", "cached:nodata", "cached:nxdomain", "cached:error", "cached_failures_served", "served_across_flag_variants", "cached:cname-nodata", "cached:cname-nxdomain", "cached:cname-positive"] {
+        for k in ["answers_from_cache", "answers_from_upstream", "cached:answer", "cached:nodata", "cached:nxdomain", "cached:error", "cached_failures_served", "served_across_flag_variants", "threads_cases", "cached:cname-nodata", "cached:cname-nxdomain", "cached:cname-positive"] {
             c.floor(k, 5);
         }
     }
